@@ -8,7 +8,7 @@ Definition drop_step (acc : option (dkind * dtarget)) (c : dcall) :=
 Definition cluster_step (acc : option string) (c : dcall) := match c with DOnCluster s => Some s | _ => acc end.
 Definition is_dcall_if_exists (c : dcall) : bool := match c with DIfExists => true | _ => false end.
 
-(* the last drop_xxx / on_cluster call: an earlier one, if accepted, had an empty (falsy) argument *)
+(* the drop_xxx / on_cluster call of the program (a second one raises) *)
 Definition last_drop (calls : list dcall) : option (dkind * dtarget) := fold_left drop_step calls None.
 Definition last_cluster (calls : list dcall) : option string := fold_left cluster_step calls None.
 
@@ -46,12 +46,12 @@ Proof.
     rewrite (IH _ _ H). destruct st as [kd tg ie cl]. unfold dextend.
     destruct c; simpl in E.
     + destruct (is_ch_kind k && negb (has_clickhouse_drops cls))%bool; [discriminate|].
-      destruct (target_truthy tg); [discriminate|]. inversion E. subst. simpl.
+      destruct (is_some kd); [discriminate|]. inversion E. subst. simpl.
       rewrite (fold_drop_from r (Some (k, target))).
       destruct (fold_left drop_step r None) as [[k' t']|]; reflexivity.
     + inversion E. subst. simpl. now rewrite Bool.orb_true_r.
     + destruct (negb (has_clickhouse_drops cls)); [discriminate|].
-      destruct (truthy_ostr cl); [discriminate|]. inversion E. subst. simpl.
+      destruct (is_some cl); [discriminate|]. inversion E. subst. simpl.
       rewrite (fold_cluster_from r (Some c)).
       destruct (fold_left cluster_step r None); reflexivity.
 Qed.
@@ -155,10 +155,10 @@ Proof.
     - destruct st. eauto.
     - apply Bool.andb_true_iff in Hl as [H1 H2]. destruct c; try discriminate. simpl.
       destruct (IH (mk_dstate (d_kind st) (d_target st) true (d_cluster st)) H2) as (ie & E). simpl in E. eauto. }
-  assert (G2 : forall l st, forallb is_dcall_if_exists l = true -> target_truthy (d_target st) = false ->
+  assert (G2 : forall l st, forallb is_dcall_if_exists l = true -> d_kind st = None ->
                exists st', drun cls st (l ++ DDrop k tg :: post) = Ok st').
   { induction l as [|c r IH]; intros st Hl Hts; simpl in *.
-    - rewrite Hk, Hts. match goal with |- exists st', drun cls ?s post = _ => destruct (G post s Hpost) as (ie & E) end. eauto.
+    - rewrite Hk, Hts. cbn [is_some]. match goal with |- exists st', drun cls ?s post = _ => destruct (G post s Hpost) as (ie & E) end. eauto.
     - apply Bool.andb_true_iff in Hl as [H1 H2]. destruct c; try discriminate. simpl. apply IH; auto. }
   apply G2; auto.
 Qed.
